@@ -100,9 +100,33 @@ local c = 0; for i, r in ipairs(big) do if r[3] then c = c + r[1] end end; emit(
 local acc = 0
 for i = 1, 3000 do acc = (acc * 31 + math.random(1000)) % 1000003; if i % 500 == 0 then emit(i, acc) end end
 emit(math.random(5, 9), math.floor(math.random() * 1000))`,
+	// 5: the debug paths that LOOK UP names and lines in the prototype (tracebacks, getinfo 'n', error positions)
+	// through call sites without a static name, tail calls and sites whose callee depends on the state
+	`local function h() return debug.traceback("tb", 1) end
+local function k() local s = debug.traceback("tk") return s end
+local fns = {h, k}
+local function viaTail(mode) if mode == 1 then return h() end local r = h() return r end
+local function unnamed(i) return (fns[i]()) end
+for round = 1, 3 do
+  emit(viaTail((ID + round) % 2 + 1))
+  emit(unnamed((ID + round) % 2 + 1))
+  emit((fns[(ID + round) % 2 + 1])())
+end
+emit(select(2, xpcall(function() local x = nil; return x.y end, debug.traceback)))
+emit(select(2, xpcall(function() return fns[ID % 2 + 1](nil).z.w end, function(m) return debug.traceback(m, 2) end)))
+local function named() local i = debug.getinfo(1, "nSl") return i.name, i.namewhat, i.currentline, i.linedefined end
+emit(named())
+emit((function() local i = debug.getinfo(1, "nl") return i.name, i.currentline end)())
+local function tailer() return named() end
+emit(tailer())
+local t = {m = named}
+emit(t.m(), t["m"](), pcall(named))
+local co = coroutine.create(function() local function inner() error("in co " .. ID) end inner() end)
+local ok, msg = coroutine.resume(co)
+emit(ok, msg, debug.traceback(co))`,
 }
 
-var c13IsoNames = []string{"arith", "strings", "meta", "nested", "rand"}
+var c13IsoNames = []string{"arith", "strings", "meta", "nested", "rand", "debug"}
 
 // options under which state i of a run is created (the same for its sequential baseline)
 func c13Opts(i int) lua.Options {
